@@ -1,39 +1,32 @@
 import XsVerif.Driver.Util
+import XsVerif.Driver.WcJson
 import XsVerif.Model.Attributes
-open Lean XsVerif.Driver XsVerif.Wildcard XsVerif.Attributes
+import XsVerif.Model.AttrTypes
+import XsVerif.Model.AttrDeriv
+open Lean XsVerif.Driver XsVerif.Wildcard XsVerif.Attributes XsVerif.AttrTypes XsVerif.AttrDeriv
 
 /-
-  Line protocol of C03.  Request:
+  Line protocol of C03.  Three kinds of request (field "op"):
+
+  "decode" (default) — one built group, a batch of attribute sets and option pairs:
     {"decls":[D..], "any": null | {"wc":W,"pc":"strict|lax|skip"}, "globals":[D..], "loaded":[ns..],
-     "cases":[[[[ns,loc],value]..]..], "opts":[[useDefaults,fillMissing]..], "both":b,
-     "valid":[[ty,lex]..], "cls":[[ty,lex,classId]..]}
+     "cases":[[[[ns,loc],value]..]..], "opts":[[useDefaults,fillMissing]..], "ctx":[[prefix,uri]..]}
     D = {"n":[ns,loc],"use":"optional|required|prohibited","fixed":null|str,"default":null|str,"ty":k,"same":b}
     W = wildcard as in C16 ({"ns":"any"|"other"|[..],"notNs":[..],"notQ":[[ns,loc]..],"nd":b,"nsib":b,"tns":str})
-  Answer:
-    {"errors":[[kind,ns,loc]..]   in collection order,
-     "decoded":[[ns,loc,"t",ty,raw] | [ns,loc,"r",raw] | [ns,loc,"n"]]   in result order,
-    (see `handle` for the batching)
+    simple-type semantics = `AttrTypes.semCat ctx` (computed from the lexical forms, no tables)
+    answer {"res":[[R per opt] per case]},
+      R = {"errors":[[kind,ns,loc]..] in collection order,
+           "decoded":[[ns,loc,"t",ty,raw,V] | [ns,loc,"r",raw] | [ns,loc,"n"]] in result order},
+      V = the decoded value of `raw` for catalogue type `ty` (`AttrTypes.decodedVal`)
+  "types" — the catalogue semantics alone:
+    {"op":"types","ctx":[[prefix,uri]..],"items":[[ty,lex]..],"pairs":[[ty,a,b]..]}
+    answer {"valid":[b..],"dec":[V..],"eq":[b..]}
+  "build" — computing the attribute group of a (derived) complex type (Model/AttrDeriv.lean):
+    {"op":"build","v11":b,"oldPc":b,"content":{"children":[{"attr":D}|{"group":G}..],"any":A,"inGroupDef":b},
+     "deriv":"none|extension|restriction","base":null|G,"defaults":null|G,"ids":[ty..]}   G = {"decls":[D..],"any":A}
+    answer {"group": null | {"decls":[D..],"any":A'}, "errs":[str..]}
 -/
 namespace XsVerif.Driver.C03
-
-def parseQN (j : Json) : Except String QN := do
-  let a ← j.getArr?
-  if h : a.size = 2 then
-    return ⟨← a[0].getStr?, ← a[1].getStr?⟩
-  else throw "qname"
-
-def parseWc (j : Json) : Except String Wc := do
-  let nsj ← j.getObjVal? "ns"
-  let ns ← match nsj with
-    | .str "any" => pure NsC.any
-    | .str "other" => pure NsC.other
-    | .arr a => NsC.set <$> a.toList.mapM (·.getStr?)
-    | _ => throw "ns"
-  let notNs ← getStrList j "notNs"
-  let nq ← getArr j "notQ"
-  let notQ ← nq.toList.mapM parseQN
-  return { ns, notNs, notQ, notDefined := ← getBool j "nd", notSibling := ← getBool j "nsib",
-           tns := ← getStr j "tns" }
 
 def parsePC (s : String) : Except String PC :=
   match s with
@@ -72,29 +65,32 @@ def errToJson : Err → Json
   | .notFound n => errJ "notFound" n
   | .unavailableNs n => errJ "unavailable" n
 
-def itemToJson : Item → Json
-  | (n, .typed ty raw) => Json.arr #[n.ns, n.loc, "t", ty, raw]
+def strOf (s : XsVerif.Datatypes.Str) : String := String.ofList s
+
+def dvJson : DV → Json
+  | .none => Json.arr #["n"]
+  | .int i => Json.arr #["i", toString i]
+  | .dec d => Json.arr #["d", d.neg, toString d.coef, d.scale]
+  | .bool b => Json.arr #["b", b]
+  | .str s => Json.arr #["s", strOf s]
+  | .list l => Json.arr #["l", Json.arr (l.map fun
+      | some i => Json.str (toString i)
+      | none => Json.null).toArray]
+
+def valJson (ctx : NsCtx) (ty : Nat) (raw : String) : Json :=
+  match CatTy.ofIdx ty with
+  | some t => dvJson (decodedVal ctx t raw.toList)
+  | none => Json.arr #["?"]
+
+def itemToJson (ctx : NsCtx) : Item → Json
+  | (n, .typed ty raw) => Json.arr #[n.ns, n.loc, "t", ty, raw, valJson ctx ty raw]
   | (n, .raw s) => Json.arr #[n.ns, n.loc, "r", s]
   | (n, .nil) => Json.arr #[n.ns, n.loc, "n"]
 
-def parseTable (j : Json) : Except String (List (Nat × String)) := do
-  let a ← j.getArr?
-  a.toList.mapM fun e => do
+def parseCtx (j : Json) : Except String NsCtx := do
+  (← j.getArr?).toList.mapM fun e => do
     let p ← e.getArr?
-    if h : p.size = 2 then return (← p[0].getNat?, ← p[1].getStr?) else throw "valid entry"
-
-def parseCls (j : Json) : Except String (List (Nat × String × Nat)) := do
-  let a ← j.getArr?
-  a.toList.mapM fun e => do
-    let p ← e.getArr?
-    if h : p.size = 3 then return (← p[0].getNat?, ← p[1].getStr?, ← p[2].getNat?) else throw "cls entry"
-
-def mkSem (valid : List (Nat × String)) (cls : List (Nat × String × Nat)) : Sem where
-  validT t x := valid.contains (t, x)
-  valueEq t a b :=
-    match cls.find? (fun e => e.1 == t && e.2.1 == a), cls.find? (fun e => e.1 == t && e.2.1 == b) with
-    | some ea, some eb => ea.2.2 == eb.2.2
-    | _, _ => false
+    if h : p.size = 2 then return (← p[0].getStr?, ← p[1].getStr?) else throw "ctx entry"
 
 def parseAttrs (j : Json) : Except String (List Attr) := do
   (← j.getArr?).toList.mapM fun e => do
@@ -105,29 +101,109 @@ def parseOpt (j : Json) : Except String (Bool × Bool) := do
   let p ← j.getArr?
   if h : p.size = 2 then return (← p[0].getBool?, ← p[1].getBool?) else throw "opts"
 
-/-- one request = one built group with a batch of attribute sets and option pairs
-    `[useDefaults, fillMissing]`; answer `res[case][opt] = {"rep":R, "leg":R?}` with
-    `R = {"errors":[..],"decoded":[..]}` for the repaired (`rep`) and the pinned (`leg`, only when
-    `"both":true`) algorithm. -/
-def handle (j : Json) : Except String Json := do
+def parseGroup (j : Json) : Except String Group := do
+  return { decls := ← (← getArr j "decls").toList.mapM parseDecl, any := ← parseAny (← j.getObjVal? "any") }
+
+def parseOptGroup (j : Json) (k : String) : Except String (Option Group) := do
+  match j.getObjVal? k with
+  | .ok .null => pure none
+  | .ok g => some <$> parseGroup g
+  | .error _ => pure none
+
+def useStr : Use → String
+  | .optional => "optional" | .required => "required" | .prohibited => "prohibited"
+
+def optStrJson : Option String → Json
+  | some s => Json.str s | none => Json.null
+
+def declJson (d : Decl) : Json :=
+  Json.mkObj [("n", Json.arr #[d.name.ns, d.name.loc]), ("use", useStr d.use), ("fixed", optStrJson d.fixed),
+    ("default", optStrJson d.dflt), ("ty", d.ty)]
+
+def pcStr : PC → String | .strict => "strict" | .lax => "lax" | .skip => "skip"
+
+def anyJson : Option AnyAttr → Json
+  | none => Json.null
+  | some a => Json.mkObj [("wc", wcJson a.wc), ("pc", pcStr a.pc)]
+
+def groupJson (g : Group) : Json :=
+  Json.mkObj [("decls", Json.arr (g.decls.map declJson).toArray), ("any", anyJson g.any)]
+
+def buildErrStr : BuildErr → String
+  | .duplicate _ => "duplicate" | .unionNotExpressible => "union" | .defaultClash _ => "defaultClash"
+  | .defaultWildcardClash => "defaultWildcardClash" | .multipleIds => "multipleIds"
+
+def parseChild (j : Json) : Except String Child := do
+  match j.getObjVal? "attr" with
+  | .ok d => Child.attr <$> parseDecl d
+  | .error _ => Child.group <$> parseGroup (← j.getObjVal? "group")
+
+def parseDeriv (s : String) : Except String Deriv :=
+  match s with
+  | "none" => pure .none | "extension" => pure .extension | "restriction" => pure .restriction
+  | _ => throw "deriv"
+
+/-- "decode": one built group with a batch of attribute sets and option pairs -/
+def handleDecode (j : Json) : Except String Json := do
   let decls ← (← getArr j "decls").toList.mapM parseDecl
   let any ← parseAny (← j.getObjVal? "any")
   let globals ← (← getArr j "globals").toList.mapM parseDecl
   let loaded ← getStrList j "loaded"
   let cases ← (← getArr j "cases").toList.mapM parseAttrs
   let opts ← (← getArr j "opts").toList.mapM parseOpt
-  let both ← getBool j "both"
-  let sem := mkSem (← parseTable (← j.getObjVal? "valid")) (← parseCls (← j.getObjVal? "cls"))
+  let ctx ← parseCtx (← j.getObjVal? "ctx")
+  let sem := semCat ctx
   let env : Env := { globals, loaded }
   let G : Group := { decls, any }
   let one (o : Opts) (attrs : List Attr) : Json :=
     Json.mkObj [("errors", Json.arr ((errors sem env o G attrs).map errToJson).toArray),
-                ("decoded", Json.arr ((decoded env o G attrs).map itemToJson).toArray)]
+                ("decoded", Json.arr ((decoded env o G attrs).map (itemToJson ctx)).toArray)]
   let res := cases.map fun attrs => Json.arr (opts.map fun (ud, fm) =>
-    let rep := one { useDefaults := ud, fillMissing := fm, legacy := false } attrs
-    if both then Json.mkObj [("rep", rep), ("leg", one { useDefaults := ud, fillMissing := fm, legacy := true } attrs)]
-    else Json.mkObj [("rep", rep)]).toArray
+    one { useDefaults := ud, fillMissing := fm, legacy := false } attrs).toArray
   return Json.mkObj [("res", Json.arr res.toArray)]
+
+/-- "types": validity, decoded value and the fixed-value test of the catalogue types -/
+def handleTypes (j : Json) : Except String Json := do
+  let ctx ← parseCtx (← j.getObjVal? "ctx")
+  let sem := semCat ctx
+  let items ← (← getArr j "items").toList.mapM fun e => do
+    let p ← e.getArr?
+    if h : p.size = 2 then return (← p[0].getNat?, ← p[1].getStr?) else throw "item"
+  let pairs ← (← getArr j "pairs").toList.mapM fun e => do
+    let p ← e.getArr?
+    if h : p.size = 3 then return (← p[0].getNat?, ← p[1].getStr?, ← p[2].getStr?) else throw "pair"
+  return Json.mkObj [
+    ("valid", Json.arr (items.map fun (t, x) => Json.bool (sem.validT t x)).toArray),
+    ("dec", Json.arr (items.map fun (t, x) => valJson ctx t x).toArray),
+    ("eq", Json.arr (pairs.map fun (t, a, b) => Json.bool (sem.valueEq t a b)).toArray)]
+
+/-- "build": the attribute group of a (derived) complex type -/
+def handleBuild (j : Json) : Except String Json := do
+  let v11 ← getBool j "v11"
+  let oldPc ← getBool j "oldPc"
+  let cj ← j.getObjVal? "content"
+  let content : Content := {
+    children := ← (← getArr cj "children").toList.mapM parseChild,
+    any := ← parseAny (← cj.getObjVal? "any"),
+    inGroupDef := ← getBool cj "inGroupDef" }
+  let k ← parseDeriv (← getStr j "deriv")
+  let base ← parseOptGroup j "base"
+  let dflt ← parseOptGroup j "defaults"
+  let ids ← (← getArr j "ids").toList.mapM (·.getNat?)
+  let (D, e1) := collect oldPc content
+  match derive v11 k (base.getD { decls := [], any := none }) D with
+  | .error e => return Json.mkObj [("group", Json.null), ("errs", Json.arr ((e1 ++ [e]).map (Json.str ∘ buildErrStr)).toArray)]
+  | .ok G =>
+    let (G', e2) := applyDefaults G dflt
+    let e3 := idErrs v11 (fun t => ids.contains t) G'
+    return Json.mkObj [("group", groupJson G'),
+      ("errs", Json.arr ((e1 ++ e2 ++ e3).map (Json.str ∘ buildErrStr)).toArray)]
+
+def handle (j : Json) : Except String Json := do
+  match j.getObjVal? "op" with
+  | .ok (.str "types") => handleTypes j
+  | .ok (.str "build") => handleBuild j
+  | _ => handleDecode j
 
 end XsVerif.Driver.C03
 
